@@ -20,7 +20,11 @@ from vlib import run as R            # noqa: E402
 
 
 def load_prop(pid: str):
-    return importlib.import_module("props.%s" % pid.lower())
+    mod = importlib.import_module("props.%s" % pid.lower())
+    if not hasattr(mod, "THEOREMS"):
+        import mkprops
+        mod.THEOREMS = list(mkprops.TABLE[pid][2]) + [pid + "_nonvacuous"]
+    return mod
 
 
 def known_match(finding, prop, replay):
